@@ -163,6 +163,10 @@ func Alphabet(corner bool) []Sym {
 	// explicit null is a value like any other (RFC 6902 requires the member, not a non-null content), and so are false, 0, "" and []
 	jp("json", "null-values", `[{"op":"add","path":"/nothing","value":null},{"op":"test","path":"/nothing","value":null},{"op":"replace","path":"/nothing","value":null},{"op":"add","path":"/alsoNothing","value":null}]`)
 	jp("json", "empty-values", `[{"op":"add","path":"/f","value":false},{"op":"add","path":"/z","value":0},{"op":"add","path":"/e","value":""},{"op":"add","path":"/l","value":[]},{"op":"test","path":"/f","value":false},{"op":"replace","path":"/z","value":0}]`)
+	// the also-known-as list written through JSON patches (it is not a protected member): an entry appended that may be there already,
+	// and the whole list set to one with a repeated URI - remove-also-known-as takes a URI out wherever it occurs
+	jp("json", "append-aka-u1", `[{"op":"add","path":"/alsoKnownAs/-","value":"https://u1.example/"}]`)
+	jp("json", "set-aka-with-repeats", `[{"op":"add","path":"/alsoKnownAs","value":["https://u1.example/","did:example:u2","https://u1.example/","https://u3.example/x?y=1","did:example:u2"]}]`)
 	jp("json", "fails-second", `[{"op":"add","path":"/t2","value":1},{"op":"remove","path":"/nonexistent"}]`)
 	// a list whose second operation makes the RFC 6902 library panic (negative index) after the first one has been applied
 	jp("json", "fails-second-by-library-panic", `[{"op":"add","path":"/pp","value":[1]},{"op":"replace","path":"/pp/-1","value":2}]`)
